@@ -788,10 +788,22 @@ func runStress(c StressCfg) StressResult {
 	}
 	wdone := make(chan struct{})
 	go func() { wg.Wait(); close(wdone) }()
-	select {
-	case <-wdone:
-	case <-time.After(120 * time.Second):
-		fail("workload did not finish within 120 s (callers blocked)")
+	// a workload that is slow (large payloads over a fragmenting socket, a loaded machine) is not a finding; callers that
+	// make no progress at all are: the verdict needs 60 s without a single completed call
+	lastN, lastT := atomic.LoadInt64(&seqc), time.Now()
+wait:
+	for {
+		select {
+		case <-wdone:
+			break wait
+		case <-time.After(500 * time.Millisecond):
+			if n := atomic.LoadInt64(&seqc); n != lastN {
+				lastN, lastT = n, time.Now()
+			} else if time.Since(lastT) > 60*time.Second {
+				fail("no call completed for 60 s and the workload is not finished (callers blocked)")
+				break wait
+			}
+		}
 	}
 	for k, cc := range c.CtxCases {
 		capv, ln, want := cc[0], cc[1], cc[2] == 1
@@ -872,7 +884,7 @@ func runStress(c StressCfg) StressResult {
 			fail("the content a handler owns and answers from was modified by the library")
 		}
 	}
-	if c.Retain && c.Codec != "code" {
+	if c.Retain && c.Codec != "code" && !(c.SrvPipe && c.CliPipe && c.Callers == 1) {
 		// user code hands what it kept back to the library: kept replies are forwarded as arguments of further calls, and a
 		// handler answers with the slice it was given (and keeps); none of that makes the bytes the library's to recycle
 		omu.Lock()
@@ -886,9 +898,10 @@ func runStress(c StressCfg) StressResult {
 			nf++
 			cn := conns[i%len(conns)]
 			reply, get := newMsg(nil)
-			m := "S.Echo"
-			if nf%2 == 0 {
-				m = "S.Same"
+			// (S.Same does not interpret the bytes; S.Echo only for forwarded bytes whose header does not ask for a failure)
+			m := "S.Same"
+			if nf%2 == 0 && fwd[i][8]&1 == 0 {
+				m = "S.Echo"
 			}
 			sentMu.Lock()
 			sentCount[string(fwd[i])]++
